@@ -10,11 +10,20 @@ class Params(ChainBuild):
     aspects = ('params', 'conflict')
 
 
+class Holder:
+    """a mutable object that is neither list nor dict (a vocabulary, a fitted scaler)"""
+    def __init__(self):
+        self.words = ['a']
+
+
 def mutable_ids(v, acc):
-    if isinstance(v, (list, dict)):
+    if isinstance(v, (list, dict, set, Holder)):
         acc.add(id(v))
+    if isinstance(v, (list, dict, tuple, set, frozenset)):
         for x in (v.values() if isinstance(v, dict) else v):
             mutable_ids(x, acc)
+    if isinstance(v, Holder):
+        mutable_ids(v.words, acc)
     return acc
 
 
@@ -29,9 +38,10 @@ class Aliasing(Suite):
         # a class with mutable defaults, mounted under two namespaces and at the root
         cls = [dict(K(0, 'Abc', params=[P('x', default=[[1, {'k': [2]}]]), P('y', default=[{'d': [1]}])]), name='abc'),
                dict(K(1, 'Dep', meta_inputs=[{'cls': 0}], params=[P('x', default=[[1, {'k': [2]}]])]), name='dep')]
-        return [dict(classes=cls, files={'one.json': {'tasks': ['@M.*']}, 'two.json': {'tasks': ['@M.*'], 'y': {'d': [1]}}},
-                     base={'name': 'main', 'data': {'tasks': ['@M.*'], 'uses': ['one.json as a', 'two.json as b']}},
-                     context={'dict': {'shared': [1]}})]
+        one = dict(classes=cls, files={'one.json': {'tasks': ['@M.*']}, 'two.json': {'tasks': ['@M.*'], 'y': {'d': [1]}}},
+                   base={'name': 'main', 'data': {'tasks': ['@M.*'], 'uses': ['one.json as a', 'two.json as b']}},
+                   context={'dict': {'shared': [1]}})
+        return [one, dict(one, python_values=True)]
 
     def gen(self, rng, tier):
         from ..gen_pipeline import gen_case
@@ -48,6 +58,12 @@ class Aliasing(Suite):
     def run_impl(self, case):
         with pl.workspace(case) as (d, mod):
             ctx = pl.ctx_arg(case['context'], mod)
+            if case.get('python_values') and isinstance(ctx, dict):
+                # values that are mutable without being lists or mappings: a set, a tuple that holds a list, an object
+                ctx['stopwords'] = {'the', 'a'}
+                ctx['pairs'] = ([1, 2], {'k': [3]})
+                ctx['holder'] = Holder()
+                ctx.setdefault('for_namespaces', {}).setdefault('a', {})['stopwords'] = {'der', 'die'}
             before = copy.deepcopy(ctx)
             try:
                 from taskchain import Config
@@ -89,6 +105,12 @@ class Aliasing(Suite):
                     v.append('MUTATED')
                 elif isinstance(v, dict):
                     v['MUTATED'] = 1
+                elif isinstance(v, set):
+                    v.add('MUTATED')
+                elif isinstance(v, Holder):
+                    v.words.append('MUTATED')
+                elif isinstance(v, tuple) and v and isinstance(v[0], list):
+                    v[0].append('MUTATED')
             after = {str(c): {k: pl.to_spec(v) for k, v in c.data.items() if k != 'for_namespaces'} for c in configs}
             for name in snapshot:
                 if repr(snapshot[name]) != repr(after[name]):
